@@ -341,7 +341,12 @@ theorem good_applyFunction_succ {n} (h : ∀ node, Good (eval n node)) (fn args)
   cases fn
   case func f =>
     rw [applyFunction]
-    refine good_bind good_cacheGet ?_
+    refine good_bind good_curEnv ?_
+    intro c0
+    refine good_bind good_getFrame ?_
+    intro cf0
+    refine good_bind (x := if (cf0.localFunc && sameFunction cf0 f) = true then pure none else cacheGet f.key args)
+      (by split <;> good) ?_
     intro r
     dsimp only
     split
